@@ -527,6 +527,16 @@ impl Relay {
         version: ProtocolVersion,
         channel_capacity: Option<usize>,
     ) -> (ClientEnd, iroh_relay::server::ConnectionId) {
+        let p = self.prepare(id, version, channel_capacity);
+        let (end, conn_id) = (p.end, p.conn_id);
+        self.clients.register(p.config, self.metrics.clone());
+        (end, conn_id)
+    }
+
+    /// Builds a connection (its connection id is assigned now) without registering it yet, so
+    /// that the order of id assignment and the order of registration can differ, as they do
+    /// when two handshakes overlap.
+    pub fn prepare(&self, id: PublicKey, version: ProtocolVersion, channel_capacity: Option<usize>) -> Prepared {
         let (io, end) = mem_pair(None, None);
         let guard = OnDisconnectGuard::empty(id);
         let conn_id = guard.connection_id();
@@ -536,9 +546,21 @@ impl Relay {
         if let Some(c) = channel_capacity {
             config.channel_capacity = c;
         }
-        self.clients.register(config, self.metrics.clone());
+        Prepared { config, end, conn_id }
+    }
+
+    pub fn register(&self, p: Prepared) -> (ClientEnd, iroh_relay::server::ConnectionId) {
+        let (end, conn_id) = (p.end, p.conn_id);
+        self.clients.register(p.config, self.metrics.clone());
         (end, conn_id)
     }
+}
+
+/// A connection that has its id but is not registered yet.
+pub struct Prepared {
+    config: Config<MemIo>,
+    end: ClientEnd,
+    pub conn_id: iroh_relay::server::ConnectionId,
 }
 
 /// Deterministic key pool.
